@@ -37,6 +37,8 @@ func main() {
 	switch os.Args[1] {
 	case "check":
 		os.Exit(cmdCheck(os.Args[2:]))
+	case "replay":
+		cmdReplay(os.Args[2:])
 	case "ghost":
 		pat := "."
 		if len(os.Args) > 2 {
@@ -541,3 +543,76 @@ func (c *FnCtx) coverObligations() []*Obligation {
 }
 
 var _ = ssa.NaiveForm
+
+
+// cmdReplay re-runs, against /repo's current working tree, the concrete tests recorded in a replay file
+// (the file a VIOLATION line points to) and prints their output.
+func cmdReplay(args []string) {
+	if len(args) < 1 {
+		fmt.Fprintln(os.Stderr, "usage: govc replay <replay-file> [--repo DIR]")
+		os.Exit(2)
+	}
+	repo := "/repo"
+	for i := 1; i+1 < len(args); i++ {
+		if args[i] == "--repo" {
+			repo = args[i+1]
+		}
+	}
+	data, err := os.ReadFile(args[0])
+	if err != nil {
+		fmt.Fprintln(os.Stderr, err)
+		os.Exit(2)
+	}
+	text := string(data)
+	fmt.Println(firstLines(text, 12))
+	pat := "."
+	for _, l := range strings.Split(text, "\n") {
+		if strings.HasPrefix(l, "source: ") {
+			src := strings.TrimPrefix(l, "source: ")
+			if i := strings.Index(src, ":"); i > 0 {
+				src = src[:i]
+			}
+			for _, sub := range []string{"x2j-wrapper", "j2x", "x2j"} {
+				if strings.Contains(src, "/"+sub+"/") {
+					pat = "./" + sub
+				}
+			}
+		}
+	}
+	var tests []string
+	var cur []string
+	in := false
+	for _, l := range strings.Split(text, "\n") {
+		if strings.HasPrefix(l, "//go:build verif") {
+			in, cur = true, nil
+		}
+		if in && (strings.HasPrefix(l, "test output:") || strings.HasPrefix(l, "REPRODUCED=") || strings.HasPrefix(l, "corpus search") || strings.HasPrefix(l, "model inputs")) {
+			tests = append(tests, strings.Join(cur, "\n"))
+			in = false
+		}
+		if in {
+			cur = append(cur, l)
+		}
+	}
+	if in && len(cur) > 0 {
+		tests = append(tests, strings.Join(cur, "\n"))
+	}
+	if len(tests) == 0 {
+		fmt.Println("\nno concrete test recorded in this replay file (the verifier gave no counterexample: no-failing-input-found)")
+		return
+	}
+	ld, err := Load(repo, pat)
+	if err != nil {
+		fmt.Fprintln(os.Stderr, err)
+		os.Exit(2)
+	}
+	eng := NewEngine(ld)
+	scratch, _ := os.MkdirTemp("", "govc-replay-")
+	defer os.RemoveAll(scratch)
+	c := &FnCtx{eng: eng}
+	for i, t := range tests {
+		fmt.Printf("\n=== recorded test %d of %d, re-run on %s ===\n", i+1, len(tests), repo)
+		out := runReplayTest(c, repo, scratch, t)
+		fmt.Println(firstLines(grepLines(out, "VERIF-REPLAY|panic|FAIL|^ok|PASS"), 30))
+	}
+}
